@@ -22,42 +22,54 @@
 (***************************************************************************)
 EXTENDS Naturals, Sequences, FiniteSets, TLC
 
-CONSTANTS Threads, FixedOrder
+CONSTANTS Threads, FixedOrder,
+          Scenario    \* "stream": one stream task, every caller delivers an item through the bridge (registry mutex)
+                      \* "all":    Command::all of one request.then_send per caller; caller t resolves the request
+                      \*           of task t through Core::resolve (typed API, no registry)
 MaxW == 3 * Cardinality(Threads) + 3
+Tasks == IF Scenario = "stream" THEN {1} ELSE Threads
+Target(t) == IF Scenario = "stream" THEN 1 ELSE t
+Once == Scenario = "all"
 
 VARIABLES
-  reglock,     \* ResolveRegistry mutex (held from resume's lock until resume returns)
-  chan,        \* mpsc queue of the stream request
-  recvWaker,   \* AtomicWaker inside the mpsc channel: waker id or 0
+  reglock,     \* ResolveRegistry mutex (held from resume's lock until resume returns; "stream" only)
+  chan,        \* per task: mpsc queue of its request
+  recvWaker,   \* per task: AtomicWaker inside the mpsc channel: waker id or 0
   woken,       \* CommandWaker.woken, per waker id
   refs,        \* Arc strong count, per waker id
+  wtask,       \* the task a waker id belongs to
   nextW,
-  cmdReady,    \* copies of T's id in command C's ready queue
+  cmdReady,    \* command C's ready queue: sequence of task ids
   cmdWaker,    \* C.waker (AtomicWaker) holds H's TaskWaker
   execReady,   \* copies of H's id in the executor's ready queue
   spawnQ,      \* futures in the executor's spawn queue (each hosts a Command::done())
   slot,        \* executor slab slot of H: "present" | "taken" | "free"
-  taskAlive,   \* T is in C's slab (its mpsc receiver is alive)
+  taskAlive,   \* per task: it is in C's slab (its mpsc receiver is alive)
   cmdEvents,   \* C's event channel
   coreEvents,  \* the core's capability_events channel
   log,         \* the app's model (applied events)
-  th           \* per caller: [pc, w, myw, ready, cnt, work, res, xtask, ev]
+  th           \* per caller: [pc, w, myw, k, ready, cnt, work, res, xtask, ev]
 
-vars == <<reglock, chan, recvWaker, woken, refs, nextW, cmdReady, cmdWaker, execReady, spawnQ,
+vars == <<reglock, chan, recvWaker, woken, refs, wtask, nextW, cmdReady, cmdWaker, execReady, spawnQ,
           slot, taskAlive, cmdEvents, coreEvents, log, th>>
 
+NT == Cardinality(Tasks)
+
 Init ==
-  /\ reglock = FALSE /\ chan = <<>> /\ recvWaker = 1
+  /\ reglock = FALSE /\ chan = [k \in Tasks |-> <<>>]
+  /\ recvWaker = [k \in Tasks |-> k]                       \* waker k: parked by task k's first poll
   /\ woken = [x \in 1..MaxW |-> FALSE]
-  /\ refs = [x \in 1..MaxW |-> IF x = 1 THEN 1 ELSE 0]
-  /\ nextW = 2 /\ cmdReady = 0 /\ cmdWaker = TRUE /\ execReady = 0 /\ spawnQ = 0
-  /\ slot = "present" /\ taskAlive = TRUE
+  /\ refs = [x \in 1..MaxW |-> IF x <= NT THEN 1 ELSE 0]
+  /\ wtask = [x \in 1..MaxW |-> IF x <= NT THEN x ELSE 0]
+  /\ nextW = NT + 1 /\ cmdReady = <<>> /\ cmdWaker = TRUE /\ execReady = 0 /\ spawnQ = 0
+  /\ slot = "present" /\ taskAlive = [k \in Tasks |-> TRUE]
   /\ cmdEvents = <<>> /\ coreEvents = <<>> /\ log = <<>>
-  /\ th = [t \in Threads |-> [pc |-> "call_begin", w |-> 0, myw |-> 0, ready |-> FALSE, cnt |-> 0,
+  /\ th = [t \in Threads |-> [pc |-> "call_begin", w |-> 0, myw |-> 0, k |-> 0, ready |-> FALSE, cnt |-> 0,
                               work |-> FALSE, res |-> "ok", xtask |-> FALSE, ev |-> 0]]
 
 Pc(t) == th[t].pc
 Set(t, r) == th' = [th EXCEPT ![t] = r]
+AnyAlive(al) == \E k \in Tasks : al[k]
 
 ---------------------------------------------------------------------------
 (* Continuations shared by several segments.  Each returns a record of the *)
@@ -78,47 +90,51 @@ ContSpawn(T, sq) ==
   ELSE [T |-> [T EXCEPT !.pc = "ex_ready"], sq |-> sq]
 
 \* Command::poll_next of C after run_until_settled: one queued event is handed to the core (and
-\* poll_next is entered again: register + settle), or the poll of H ends
-ContOut(T, cev, ce, alive) ==
+\* poll_next is entered again: register + settle), or the poll of H ends (Pending while C has tasks,
+\* else the command is done and H completes)
+ContOut(T, cev, ce, anyAlive) ==
   IF cev # <<>>
   THEN [T |-> [T EXCEPT !.pc = "cs_settle"], cev |-> Tail(cev), ce |-> Append(ce, Head(cev)), cw |-> TRUE]
-  ELSE [T |-> [T EXCEPT !.pc = IF alive THEN "ex_putback" ELSE "ex_remove"], cev |-> cev, ce |-> ce, cw |-> FALSE]
+  ELSE [T |-> [T EXCEPT !.pc = IF anyAlive THEN "ex_putback" ELSE "ex_remove"], cev |-> cev, ce |-> ce, cw |-> FALSE]
 
 \* run_until_settled of C, inner `while let Ok(id) = ready_queue.try_recv()`
-ContCmd(T, cr, cev, ce, alive) ==
-  IF cr > 0 THEN [T |-> [T EXCEPT !.pc = "cr_task"], cr |-> cr - 1, cev |-> cev, ce |-> ce, cw |-> FALSE]
-  ELSE LET o == ContOut(T, cev, ce, alive) IN [T |-> o.T, cr |-> cr, cev |-> o.cev, ce |-> o.ce, cw |-> o.cw]
+ContCmd(T, cr, cev, ce, anyAlive) ==
+  IF cr # <<>> THEN [T |-> [T EXCEPT !.pc = "cr_task", !.k = Head(cr)], cr |-> Tail(cr), cev |-> cev, ce |-> ce, cw |-> FALSE]
+  ELSE LET o == ContOut(T, cev, ce, anyAlive) IN [T |-> o.T, cr |-> cr, cev |-> o.cev, ce |-> o.ce, cw |-> o.cw]
 
 ---------------------------------------------------------------------------
 (* Segments *)
 
-\* ResolveRegistry::resume: lock; deserialize; unbounded_send = push + take the parked waker
+\* "stream": ResolveRegistry::resume -- lock; deserialize; unbounded_send = push + take the parked waker.
+\* "all": Request::resolve of the caller's own one-shot request -- the same without the registry.
 CallBegin(t) ==
-  /\ Pc(t) = "call_begin" /\ ~reglock
-  /\ IF ~taskAlive
+  /\ Pc(t) = "call_begin" /\ (Once \/ ~reglock)
+  /\ LET k == Target(t) IN
+     IF ~taskAlive[k] /\ ~Once
      THEN /\ Set(t, [th[t] EXCEPT !.pc = "call_end", !.res = "finished"])
           /\ UNCHANGED <<reglock, chan, recvWaker>>
-     ELSE /\ chan' = Append(chan, t)
-          /\ recvWaker' = 0
-          /\ IF recvWaker = 0
+     ELSE /\ chan' = IF taskAlive[k] THEN [chan EXCEPT ![k] = Append(@, t)] ELSE chan
+          /\ recvWaker' = [recvWaker EXCEPT ![k] = 0]
+          /\ IF recvWaker[k] = 0
              THEN /\ Set(t, [th[t] EXCEPT !.pc = "co_process"]) /\ UNCHANGED reglock
-             ELSE /\ Set(t, [th[t] EXCEPT !.pc = "cw_send", !.w = recvWaker]) /\ reglock' = TRUE
-  /\ UNCHANGED <<woken, refs, nextW, cmdReady, cmdWaker, execReady, spawnQ, slot, taskAlive,
+             ELSE /\ Set(t, [th[t] EXCEPT !.pc = "cw_send", !.w = recvWaker[k]])
+                  /\ reglock' = IF Once THEN reglock ELSE TRUE
+  /\ UNCHANGED <<woken, refs, wtask, nextW, cmdReady, cmdWaker, execReady, spawnQ, slot, taskAlive,
                  cmdEvents, coreEvents, log>>
 
 \* CommandWaker::wake_by_ref, step by step
 CwSend(t) ==
   /\ Pc(t) = "cw_send"
-  /\ cmdReady' = cmdReady + 1
+  /\ cmdReady' = Append(cmdReady, wtask[th[t].w])
   /\ Set(t, [th[t] EXCEPT !.pc = "cw_woken"])
-  /\ UNCHANGED <<reglock, chan, recvWaker, woken, refs, nextW, cmdWaker, execReady, spawnQ, slot,
+  /\ UNCHANGED <<reglock, chan, recvWaker, woken, refs, wtask, nextW, cmdWaker, execReady, spawnQ, slot,
                  taskAlive, cmdEvents, coreEvents, log>>
 
 CwWoken(t) ==
   /\ Pc(t) = "cw_woken"
   /\ woken' = [woken EXCEPT ![th[t].w] = TRUE]
   /\ Set(t, [th[t] EXCEPT !.pc = "cw_parent"])
-  /\ UNCHANGED <<reglock, chan, recvWaker, refs, nextW, cmdReady, cmdWaker, execReady, spawnQ, slot,
+  /\ UNCHANGED <<reglock, chan, recvWaker, refs, wtask, nextW, cmdReady, cmdWaker, execReady, spawnQ, slot,
                  taskAlive, cmdEvents, coreEvents, log>>
 
 CwParent(t) ==
@@ -126,7 +142,7 @@ CwParent(t) ==
   /\ IF cmdWaker THEN cmdWaker' = FALSE /\ execReady' = execReady + 1
      ELSE UNCHANGED <<cmdWaker, execReady>>
   /\ Set(t, [th[t] EXCEPT !.pc = "cw_drop"])
-  /\ UNCHANGED <<reglock, chan, recvWaker, woken, refs, nextW, cmdReady, spawnQ, slot, taskAlive,
+  /\ UNCHANGED <<reglock, chan, recvWaker, woken, refs, wtask, nextW, cmdReady, spawnQ, slot, taskAlive,
                  cmdEvents, coreEvents, log>>
 
 \* the waker clone taken from the channel is dropped; resume returns (unlock); Core::process starts
@@ -135,27 +151,27 @@ CwDrop(t) ==
   /\ refs' = [refs EXCEPT ![th[t].w] = @ - 1]
   /\ reglock' = FALSE
   /\ Set(t, [th[t] EXCEPT !.pc = "co_process", !.w = 0])
-  /\ UNCHANGED <<chan, recvWaker, woken, nextW, cmdReady, cmdWaker, execReady, spawnQ, slot,
+  /\ UNCHANGED <<chan, recvWaker, woken, wtask, nextW, cmdReady, cmdWaker, execReady, spawnQ, slot,
                  taskAlive, cmdEvents, coreEvents, log>>
 
 \* run_all: did_some_work = true; first iteration of the outer loop
 CoProcess(t) ==
   /\ Pc(t) = "co_process"
   /\ Set(t, [th[t] EXCEPT !.pc = "ex_spawn", !.work = FALSE])
-  /\ UNCHANGED <<reglock, chan, recvWaker, woken, refs, nextW, cmdReady, cmdWaker, execReady, spawnQ,
+  /\ UNCHANGED <<reglock, chan, recvWaker, woken, refs, wtask, nextW, cmdReady, cmdWaker, execReady, spawnQ,
                  slot, taskAlive, cmdEvents, coreEvents, log>>
 
 ExSpawn(t) ==
   /\ Pc(t) = "ex_spawn"
   /\ LET c == ContSpawn(th[t], spawnQ) IN Set(t, c.T) /\ spawnQ' = c.sq
-  /\ UNCHANGED <<reglock, chan, recvWaker, woken, refs, nextW, cmdReady, cmdWaker, execReady, slot,
+  /\ UNCHANGED <<reglock, chan, recvWaker, woken, refs, wtask, nextW, cmdReady, cmdWaker, execReady, slot,
                  taskAlive, cmdEvents, coreEvents, log>>
 
 ExReady(t) ==
   /\ Pc(t) = "ex_ready"
   /\ LET c == ContReady(th[t], execReady, coreEvents) IN
      Set(t, c.T) /\ execReady' = c.er /\ coreEvents' = c.ce
-  /\ UNCHANGED <<reglock, chan, recvWaker, woken, refs, nextW, cmdReady, cmdWaker, spawnQ, slot,
+  /\ UNCHANGED <<reglock, chan, recvWaker, woken, refs, wtask, nextW, cmdReady, cmdWaker, spawnQ, slot,
                  taskAlive, cmdEvents, log>>
 
 \* QueuingExecutor::run_task(H) up to the point after the slab lock is released
@@ -171,7 +187,7 @@ ExRun(t) ==
             /\ slot' = "taken"
             /\ Set(t, [th[t] EXCEPT !.pc = "ex_poll", !.xtask = FALSE])
             /\ UNCHANGED <<execReady, coreEvents>>
-  /\ UNCHANGED <<reglock, chan, recvWaker, woken, refs, nextW, cmdReady, cmdWaker, spawnQ, taskAlive,
+  /\ UNCHANGED <<reglock, chan, recvWaker, woken, refs, wtask, nextW, cmdReady, cmdWaker, spawnQ, taskAlive,
                  cmdEvents, log>>
 
 \* poll of the executor task: CommandSpawner's loop -> Command::poll_next registers the waker
@@ -179,7 +195,7 @@ ExPoll(t) ==
   /\ Pc(t) = "ex_poll"
   /\ cmdWaker' = IF th[t].xtask THEN cmdWaker ELSE TRUE
   /\ Set(t, [th[t] EXCEPT !.pc = "cs_settle"])
-  /\ UNCHANGED <<reglock, chan, recvWaker, woken, refs, nextW, cmdReady, execReady, spawnQ, slot,
+  /\ UNCHANGED <<reglock, chan, recvWaker, woken, refs, wtask, nextW, cmdReady, execReady, spawnQ, slot,
                  taskAlive, cmdEvents, coreEvents, log>>
 
 \* run_until_settled
@@ -188,40 +204,48 @@ CsSettle(t) ==
   /\ IF th[t].xtask
      THEN /\ Set(t, [th[t] EXCEPT !.pc = "cr_task"])       \* the done() command's root task is ready
           /\ UNCHANGED <<cmdReady, cmdEvents, coreEvents, cmdWaker>>
-     ELSE LET c == ContCmd(th[t], cmdReady, cmdEvents, coreEvents, taskAlive) IN
+     ELSE LET c == ContCmd(th[t], cmdReady, cmdEvents, coreEvents, AnyAlive(taskAlive)) IN
           /\ Set(t, c.T) /\ cmdReady' = c.cr /\ cmdEvents' = c.cev /\ coreEvents' = c.ce
           /\ cmdWaker' = IF c.cw THEN TRUE ELSE cmdWaker
-  /\ UNCHANGED <<reglock, chan, recvWaker, woken, refs, nextW, execReady, spawnQ, slot, taskAlive, log>>
+  /\ UNCHANGED <<reglock, chan, recvWaker, woken, refs, wtask, nextW, execReady, spawnQ, slot, taskAlive, log>>
 
 \* Command::run_task up to the poll: a fresh CommandWaker (arc_waker + the Waker made from it)
 CrTask(t) ==
   /\ Pc(t) = "cr_task"
   /\ IF th[t].xtask
      THEN /\ Set(t, [th[t] EXCEPT !.pc = "ct_poll"])
-          /\ UNCHANGED <<nextW, refs, cmdReady, cmdEvents, coreEvents, cmdWaker>>
-     ELSE IF ~taskAlive
-          THEN LET c == ContCmd(th[t], cmdReady, cmdEvents, coreEvents, taskAlive) IN   \* Missing
+          /\ UNCHANGED <<nextW, refs, wtask, cmdReady, cmdEvents, coreEvents, cmdWaker>>
+     ELSE IF ~taskAlive[th[t].k]
+          THEN LET c == ContCmd(th[t], cmdReady, cmdEvents, coreEvents, AnyAlive(taskAlive)) IN   \* Missing
                /\ Set(t, c.T) /\ cmdReady' = c.cr /\ cmdEvents' = c.cev /\ coreEvents' = c.ce
                /\ cmdWaker' = IF c.cw THEN TRUE ELSE cmdWaker
-               /\ UNCHANGED <<nextW, refs>>
+               /\ UNCHANGED <<nextW, refs, wtask>>
           ELSE /\ nextW' = nextW + 1
                /\ refs' = [refs EXCEPT ![nextW] = 2]
+               /\ wtask' = [wtask EXCEPT ![nextW] = th[t].k]
                /\ Set(t, [th[t] EXCEPT !.pc = "ct_poll", !.myw = nextW])
                /\ UNCHANGED <<cmdReady, cmdEvents, coreEvents, cmdWaker>>
   /\ UNCHANGED <<reglock, chan, recvWaker, woken, execReady, spawnQ, slot, taskAlive, log>>
 
-\* the poll of T: every queued item becomes an event; the new waker is parked in the channel
-\* (replacing the old one); Pending; `drop(waker)`
+\* the poll of task k.  Stream task: every queued item becomes an event, the new waker is parked in
+\* the channel (replacing the old one), Pending.  One-shot task: with the answer waiting it emits its
+\* event and completes; otherwise it parks the new waker and stays pending.  Then `drop(waker)`.
 CtPoll(t) ==
   /\ Pc(t) = "ct_poll"
   /\ IF th[t].xtask
-     THEN UNCHANGED <<chan, cmdEvents, recvWaker, refs>>
-     ELSE /\ cmdEvents' = cmdEvents \o chan
-          /\ chan' = <<>>
-          /\ recvWaker' = th[t].myw
-          /\ refs' = [x \in 1..MaxW |-> IF x = recvWaker /\ x # th[t].myw THEN refs[x] - 1 ELSE refs[x]]
-  /\ Set(t, [th[t] EXCEPT !.pc = "ct_woken"])
-  /\ UNCHANGED <<reglock, woken, nextW, cmdReady, cmdWaker, execReady, spawnQ, slot, taskAlive,
+     THEN UNCHANGED <<chan, cmdEvents, recvWaker, refs>> /\ Set(t, [th[t] EXCEPT !.pc = "ct_woken"])
+     ELSE LET k == th[t].k
+              completes == Once /\ chan[k] # <<>> IN
+          /\ cmdEvents' = cmdEvents \o chan[k]
+          /\ chan' = [chan EXCEPT ![k] = <<>>]
+          /\ IF completes
+             THEN /\ UNCHANGED recvWaker
+                  /\ refs' = [refs EXCEPT ![th[t].myw] = @ - 1]            \* only `drop(waker)`
+                  /\ Set(t, [th[t] EXCEPT !.pc = "ct_woken", !.res = "completed"])
+             ELSE /\ recvWaker' = [recvWaker EXCEPT ![k] = th[t].myw]
+                  /\ refs' = [x \in 1..MaxW |-> IF x = recvWaker[k] /\ x # th[t].myw THEN refs[x] - 1 ELSE refs[x]]
+                  /\ Set(t, [th[t] EXCEPT !.pc = "ct_woken"])
+  /\ UNCHANGED <<reglock, woken, wtask, nextW, cmdReady, cmdWaker, execReady, spawnQ, slot, taskAlive,
                  coreEvents, log>>
 
 \* first read of the eviction check
@@ -230,7 +254,7 @@ CtWoken(t) ==
   /\ IF th[t].xtask THEN Set(t, [th[t] EXCEPT !.pc = "ct_count"])
      ELSE IF FixedOrder THEN Set(t, [th[t] EXCEPT !.pc = "ct_count", !.cnt = refs[th[t].myw]])
      ELSE Set(t, [th[t] EXCEPT !.pc = "ct_count", !.ready = woken[th[t].myw]])
-  /\ UNCHANGED <<reglock, chan, recvWaker, woken, refs, nextW, cmdReady, cmdWaker, execReady, spawnQ,
+  /\ UNCHANGED <<reglock, chan, recvWaker, woken, refs, wtask, nextW, cmdReady, cmdWaker, execReady, spawnQ,
                  slot, taskAlive, cmdEvents, coreEvents, log>>
 
 \* second read, the decision, and the rest of run_until_settled's inner loop
@@ -240,17 +264,19 @@ CtCount(t) ==
      THEN \* the done() task completed; its command is done; the executor task completes
           /\ Set(t, [th[t] EXCEPT !.pc = "ex_remove"])
           /\ UNCHANGED <<refs, taskAlive, cmdReady, cmdEvents, coreEvents, cmdWaker, chan>>
-     ELSE LET ready == IF FixedOrder THEN woken[th[t].myw] ELSE th[t].ready
+     ELSE LET k == th[t].k
+              completed == th[t].res = "completed"
+              ready == IF FixedOrder THEN woken[th[t].myw] ELSE th[t].ready
               cnt   == IF FixedOrder THEN th[t].cnt ELSE refs[th[t].myw]
-              evict == ~ready /\ cnt < 2
-              alive == taskAlive /\ ~evict
-              c == ContCmd(th[t], cmdReady, cmdEvents, coreEvents, alive) IN
-          /\ taskAlive' = alive
-          /\ chan' = IF evict THEN <<>> ELSE chan        \* the receiver is dropped with the task
+              evict == ~completed /\ ~ready /\ cnt < 2
+              al    == [taskAlive EXCEPT ![k] = taskAlive[k] /\ ~evict /\ ~completed]
+              c == ContCmd([th[t] EXCEPT !.res = "ok"], cmdReady, cmdEvents, coreEvents, AnyAlive(al)) IN
+          /\ taskAlive' = al
+          /\ chan' = IF evict THEN [chan EXCEPT ![k] = <<>>] ELSE chan   \* the receiver is dropped with the task
           /\ refs' = [refs EXCEPT ![th[t].myw] = @ - 1]
           /\ Set(t, c.T) /\ cmdReady' = c.cr /\ cmdEvents' = c.cev /\ coreEvents' = c.ce
           /\ cmdWaker' = IF c.cw THEN TRUE ELSE cmdWaker
-  /\ UNCHANGED <<reglock, recvWaker, woken, nextW, execReady, spawnQ, slot, log>>
+  /\ UNCHANGED <<reglock, recvWaker, woken, wtask, nextW, execReady, spawnQ, slot, log>>
 
 \* H is put back into its slot; run_all's ready pass goes on
 ExPutback(t) ==
@@ -258,7 +284,7 @@ ExPutback(t) ==
   /\ slot' = "present"
   /\ LET c == ContReady([th[t] EXCEPT !.work = TRUE], execReady, coreEvents) IN
      Set(t, c.T) /\ execReady' = c.er /\ coreEvents' = c.ce
-  /\ UNCHANGED <<reglock, chan, recvWaker, woken, refs, nextW, cmdReady, cmdWaker, spawnQ, taskAlive,
+  /\ UNCHANGED <<reglock, chan, recvWaker, woken, refs, wtask, nextW, cmdReady, cmdWaker, spawnQ, taskAlive,
                  cmdEvents, log>>
 
 \* a completed executor task frees its slot; X was run from the spawn pass, H from the ready pass
@@ -272,7 +298,7 @@ ExRemove(t) ==
           /\ LET c == ContReady([th[t] EXCEPT !.work = TRUE], execReady, coreEvents) IN
              Set(t, c.T) /\ execReady' = c.er /\ coreEvents' = c.ce
           /\ UNCHANGED spawnQ
-  /\ UNCHANGED <<reglock, chan, recvWaker, woken, refs, nextW, cmdReady, cmdWaker, taskAlive,
+  /\ UNCHANGED <<reglock, chan, recvWaker, woken, refs, wtask, nextW, cmdReady, cmdWaker, taskAlive,
                  cmdEvents, log>>
 
 \* Core::process: update under the model lock, spawn the returned command, run_all again
@@ -281,19 +307,19 @@ CoUpdate(t) ==
   /\ log' = Append(log, th[t].ev)
   /\ spawnQ' = spawnQ + 1
   /\ Set(t, [th[t] EXCEPT !.pc = "ex_spawn", !.work = FALSE, !.ev = 0])
-  /\ UNCHANGED <<reglock, chan, recvWaker, woken, refs, nextW, cmdReady, cmdWaker, execReady, slot,
+  /\ UNCHANGED <<reglock, chan, recvWaker, woken, refs, wtask, nextW, cmdReady, cmdWaker, execReady, slot,
                  taskAlive, cmdEvents, coreEvents>>
 
 CoDrain(t) ==
   /\ Pc(t) = "co_drain"
   /\ Set(t, [th[t] EXCEPT !.pc = "call_end"])
-  /\ UNCHANGED <<reglock, chan, recvWaker, woken, refs, nextW, cmdReady, cmdWaker, execReady, spawnQ,
+  /\ UNCHANGED <<reglock, chan, recvWaker, woken, refs, wtask, nextW, cmdReady, cmdWaker, execReady, spawnQ,
                  slot, taskAlive, cmdEvents, coreEvents, log>>
 
 CallEnd(t) ==
   /\ Pc(t) = "call_end"
   /\ Set(t, [th[t] EXCEPT !.pc = "Done"])
-  /\ UNCHANGED <<reglock, chan, recvWaker, woken, refs, nextW, cmdReady, cmdWaker, execReady, spawnQ,
+  /\ UNCHANGED <<reglock, chan, recvWaker, woken, refs, wtask, nextW, cmdReady, cmdWaker, execReady, spawnQ,
                  slot, taskAlive, cmdEvents, coreEvents, log>>
 
 StepOf(t) ==
@@ -309,15 +335,22 @@ Spec == Init /\ [][Next]_vars
 
 AllDone == \A t \in Threads : Pc(t) = "Done"
 
-\* a subscription the shell is still feeding is never torn down
-NeverTornDown == taskAlive
+\* a task whose request the shell still feeds / has just answered is never torn down:
+\* a stream task is never evicted; a one-shot task only goes by completing
+NeverTornDown ==
+  IF Once THEN \A k \in Tasks : ~taskAlive[k] => (\E i \in DOMAIN log : log[i] = k) \/ (\E i \in DOMAIN cmdEvents : cmdEvents[i] = k)
+                                                 \/ (\E i \in DOMAIN coreEvents : coreEvents[i] = k) \/ (\E t \in Threads : th[t].ev = k)
+  ELSE taskAlive[1]
 
 \* when all calls have returned: every delivered item has been applied exactly once, nothing is runnable
 AllDelivered ==
   AllDone => /\ Len(log) = Cardinality(Threads)
-             /\ execReady = 0 /\ spawnQ = 0 /\ cmdReady = 0
-             /\ chan = <<>> /\ cmdEvents = <<>> /\ coreEvents = <<>>
+             /\ execReady = 0 /\ spawnQ = 0
+             /\ (~Once => cmdReady = <<>>)          \* (stale ids of completed one-shot tasks may remain)
+             /\ \A k \in Tasks : chan[k] = <<>>
+             /\ cmdEvents = <<>> /\ coreEvents = <<>>
              /\ \A t \in Threads : th[t].res = "ok"
+             /\ (Once => slot = "free")              \* the command finished: its executor task is gone
 
 NoDuplicates == \A i, j \in DOMAIN log : i # j => log[i] # log[j]
 
